@@ -105,7 +105,12 @@ func (s *session) loopWrite() {
 		case req = <-s.processingReqs:
 		}
 
-		req.Wait()
+		// the backend may never answer, don't outlive the session.
+		select {
+		case <-req.done:
+		case <-s.quit:
+			return
+		}
 		// TODO(kirk91): abstract response
 		resp := req.Response()
 		if err = s.enc.Encode(resp); err != nil {
